@@ -31,7 +31,12 @@ def policy(p):
 
 def faults(fs):
     kinds = {"err": "FErr", "dup": "FDup", "errafter": "FErrAfter"}
-    return "[" + "; ".join("(%d%%nat, %s)" % (int(f[0]), kinds[f[1]]) for f in (fs or [])) + "]"
+    plan = {}
+    for f in (fs or []):           # the harness keeps the last entry for a call index
+        plan[int(f[0])] = f[1]
+    # "cancel" (the caller's context becomes done during that call, the call itself succeeds) is no fault for the model:
+    # nothing in the SDK may depend on it
+    return "[" + "; ".join("(%d%%nat, %s)" % (i, kinds[k]) for i, k in plan.items() if k != "cancel") + "]"
 
 
 def mut(m):
